@@ -249,3 +249,7 @@ func (it *stringIter) next() tuple {
 	return okv
 }
 
+
+// fakePointer: unsafe.Pointer(uintptr(n)) - an integer travelling in a
+// pointer-typed parameter; never dereferenced.
+type fakePointer int64
